@@ -257,7 +257,28 @@ def freezeLoop (o : SObj) : List Name → SObj × Bool
       | none => (o, true)
       | some o' => freezeLoop o' ns
 
+/-- the start objects as ES5 prescribes them.  §13.2 steps 14-18: `length` {¬w,¬e,¬c}, `prototype`
+    {w,¬e,¬c}, and on the fresh prototype object `constructor` {w,¬e,c}.  §15.11.2.1 / §15.11.7.4: an
+    error instance has an own `message` {w,¬e,c} when the argument is defined and NO own `name`.
+    §15.10.7: source, global, ignoreCase, multiline {¬w,¬e,¬c}, lastIndex {w,¬e,¬c}.  §15.9.5: a Date
+    instance has no own properties.  Clause 2 permits additional properties: the implementation's
+    extras (`name` and `caller` of functions, `stack` of errors) are taken over as they are, and the
+    key order is the creation order. -/
+def nativeObj (k : Kind) (a : Addr) : SObj :=
+  match k with
+  | .fproto => ⟨none, true, [(3, .data (special a 0) true false true)]⟩
+  | .func => ⟨none, true,
+      [(6, .data 997 false false false), (5, .data 5 false false false),
+       (7, .acc (some 900) none false false), (4, .data (special a 2) true false false)]⟩
+  | .terr => ⟨none, true, [(8, .data 997 true false true), (9, .acc (some 900) none false true)]⟩
+  | .err => ⟨none, true, [(8, .data 997 true false true), (9, .acc (some 900) none false true)]⟩
+  | .regexp => ⟨none, true,
+      [(12, .data 996 false false false), (13, .data 995 false false false), (14, .data 995 false false false),
+       (10, .data 1 true false false), (11, .data 997 false false false)]⟩
+  | .date => ⟨none, true, []⟩
+
 def step (h : SHeap) : Op → StepRes
+  | .native k => (h ++ [nativeObj k h.length], .ok, [])
   | .put strict a n v => put h a n v strict
   | .del strict a n => delete h a n strict
   | .defn a n d =>                                                             -- §15.2.3.6
@@ -332,7 +353,7 @@ def observeObj (h : SHeap) (a : Addr) (o : SObj) : ObjObs :=
     keys := ownKeys o false                                                   -- §15.2.3.14
     names := ownKeys o true                                                   -- §15.2.3.4
     forin := forIn h (fuel h) (some a) []
-    per := obsNames.map (observeName h a o) }
+    per := (obsNamesFor (akeys o.props)).map (observeName h a o) }
 
 def observeFrom (h : SHeap) : Nat → List SObj → List ObjObs
   | _, [] => []
